@@ -452,6 +452,23 @@ def r_exitcode(e, R):
     la = pc.methods["_launch"]
     sent = [n for n in func_nodes(la) if isinstance(n, ast.Assign) and isinstance(n.targets[0], ast.Attribute) and n.targets[0].attr == "sentinel"]
     fins = [c for c in func_nodes(la) if isinstance(c, ast.Call) and norm(c.func).endswith("Finalize") and len(c.args) >= 3 and norm(c.args[1]) == "os.close"]
+    # ... and it really is a *read* end: the first element of an os.pipe() pair (the write end goes to the child only)
+    pipe_pairs = [n for n in func_nodes(la) if isinstance(n, ast.Assign) and isinstance(n.value, ast.Call) and norm(n.value.func) == "os.pipe" and isinstance(n.targets[0], ast.Tuple)
+                  and len(n.targets[0].elts) == 2 and all(isinstance(x, ast.Name) for x in n.targets[0].elts)]
+    read_ends = {n.targets[0].elts[0].id for n in pipe_pairs}
+    write_of = {n.targets[0].elts[0].id: n.targets[0].elts[1].id for n in pipe_pairs}
+    if sent and isinstance(sent[0].value, ast.Name):
+        sname = sent[0].value.id
+        R.check(sname in read_ends, "R-EXITCODE", "_launch: the sentinel is the read end of its pipe", la.short, f"{sname} from os.pipe()",
+                "the sentinel is the write end of a pipe: it never becomes readable when the worker dies, so a crash is never detected", e.loc(la, sent[0]))
+        if sname in write_of:
+            wname = write_of[sname]
+            closed_in_parent = any(isinstance(c_, ast.Call) and norm(c_.func) == "os.close" and c_.args and isinstance(c_.args[0], ast.Name) and
+                                   (c_.args[0].id == wname or any(isinstance(fo, ast.For) and isinstance(fo.target, ast.Name) and fo.target.id == c_.args[0].id and
+                                                                  isinstance(fo.iter, (ast.Tuple, ast.List)) and wname in [getattr(x, "id", None) for x in fo.iter.elts]
+                                                                  for fo in func_nodes(la) if isinstance(fo, ast.For))) for c_ in func_nodes(la))
+            R.check(closed_in_parent, "R-EXITCODE", "_launch: the parent closes its copy of the sentinel pipe's write end", la.short, f"os.close({wname})",
+                    "the parent keeps the write end of the sentinel pipe: the sentinel never reports the worker's death", e.loc(la, sent[0]))
     ok = bool(sent) and bool(fins) and isinstance(fins[0].args[2], ast.Tuple) and norm(fins[0].args[2].elts[0]) == norm(sent[0].value)
     R.check(ok, "R-EXITCODE", "_launch: the sentinel is the parent's read end and has a closing finaliser", la.short, "self.sentinel = parent_r; Finalize(self, os.close, (parent_r,))",
             "the sentinel descriptor is never closed (one leaked fd per worker) or is not the monitored pipe end", e.loc(la, la.node))
